@@ -797,79 +797,152 @@ func ruleC07_6(c *Ctx, r *Rep) {
 		}
 		r.Check("C07.6", "C07.6:Term-negation", fn.Pos(), ok, "result XOR Not", "NOT / '-' does not negate the term's result")
 	}
-	// conjunction / disjunction helpers: every term decides (short-circuit on the deciding value)
-	for _, sp := range []struct {
-		fn  string
-		pol bool
-		op  string
-	}{{"filter.andTerms", false, "AND"}, {"filter.orTerms", true, "OR"}} {
-		fn := r.Anchor("C07.6", sp.fn)
-		if fn == nil {
-			continue
-		}
-		ok := false
-		ls := loopsOf(fn)
-		for _, l := range ls {
+	// conjunction / disjunction chains: found by what they do (a loop that evaluates each Term of a slice), not by
+	// name; which chain a call is follows from the field it is given (Condition.And / Condition.Or), and a chain
+	// function shared by both kinds is judged per call site with its parameters bound to that site's arguments
+	isTermEval := func(call *ssa.Call) bool {
+		cal := call.Call.StaticCallee()
+		return cal != nil && cal.Name() == "Evaluate" && cal.Signature.Recv() != nil && typeIs(cal.Signature.Recv().Type(), filterPkg, "Term")
+	}
+	chainFn := func(f *ssa.Function) bool {
+		for _, l := range loopsOf(f) {
 			for b := range l.Blocks {
-				if len(b.Instrs) == 0 {
-					continue
-				}
-				iff, isIf := b.Instrs[len(b.Instrs)-1].(*ssa.If)
-				if !isIf {
-					continue
-				}
-				v, pol := iff.Cond, true
-				if u, isU := v.(*ssa.UnOp); isU && u.Op == token.NOT {
-					v, pol = u.X, false
-				}
-				ex, isE := v.(*ssa.Extract)
-				if !isE || ex.Index != 0 {
-					continue
-				}
-				if call, isC := ex.Tuple.(*ssa.Call); !isC || call.Call.StaticCallee() == nil || call.Call.StaticCallee().Name() != "Evaluate" {
-					continue
-				}
-				// which edge leaves the loop?
-				for i, s := range b.Succs {
-					if !l.Blocks[s] {
-						taken := (i == 0) == pol // the term's result on the exiting edge
-						if taken == sp.pol {
-							ok = true
-						}
+				for _, in := range b.Instrs {
+					if call, ok := in.(*ssa.Call); ok && isTermEval(call) {
+						return true
 					}
 				}
 			}
 		}
-		r.Check("C07.6", "C07.6:"+sp.op+"-chain", fn.Pos(), ok, sp.op+": the first deciding term ends the chain with that value",
-			"the "+sp.op+" chain does not stop with the deciding value of a term (each term must be able to decide the result; overwriting the accumulated result makes `a "+sp.op+" b "+sp.op+" c` equal to `a "+sp.op+" c`)")
+		return false
+	}
+	// decidingExit: in chain function f (parameters bound by env), does some in-loop branch leave the loop exactly when
+	// the term just evaluated has the value `want`?
+	decidingExit := func(f *ssa.Function, env map[*ssa.Parameter]ssa.Value, want bool) bool {
+		ok := false
+		withBindMap(env, func() {
+			for _, l := range loopsOf(f) {
+				for b := range l.Blocks {
+					if len(b.Instrs) == 0 {
+						continue
+					}
+					iff, isIf := b.Instrs[len(b.Instrs)-1].(*ssa.If)
+					if !isIf {
+						continue
+					}
+					nc := normCond(iff.Cond, true)
+					// the value of the term's result on the TRUE edge of the (normalised) condition, if the condition
+					// determines it
+					var onTrue, known bool
+					isResult := func(v ssa.Value) bool {
+						v = resolve(v)
+						if ex, isE := v.(*ssa.Extract); isE && ex.Index == 0 {
+							if call, isC := ex.Tuple.(*ssa.Call); isC && isTermEval(call) {
+								return true
+							}
+						}
+						// the named result cell the Evaluate result was stored to
+						if u, isU := v.(*ssa.UnOp); isU && u.Op == token.MUL {
+							for _, st := range allocStores(u.X) {
+								if ex, isE := st.Val.(*ssa.Extract); isE && ex.Index == 0 {
+									if call, isC := ex.Tuple.(*ssa.Call); isC && isTermEval(call) {
+										return true
+									}
+								}
+							}
+						}
+						return false
+					}
+					if isResult(nc.V) {
+						onTrue, known = nc.Pol, true
+					} else if bo, isB := nc.V.(*ssa.BinOp); isB && (bo.Op == token.EQL || bo.Op == token.NEQ) {
+						// result == k / result != k with k a constant, or a parameter bound to one at this call site
+						for _, pair := range [][2]ssa.Value{{bo.X, bo.Y}, {bo.Y, bo.X}} {
+							if !isResult(pair[0]) {
+								continue
+							}
+							if k, isK := resolve(pair[1]).(*ssa.Const); isK && k.Value != nil && k.Value.Kind() == constant.Bool {
+								kv := constant.BoolVal(k.Value)
+								// on the true edge of the normalised condition: (result == k) has truth value nc.Pol
+								eq := (bo.Op == token.EQL) == nc.Pol
+								if eq {
+									onTrue, known = kv, true
+								} else {
+									onTrue, known = !kv, true
+								}
+							}
+						}
+					}
+					if !known {
+						continue
+					}
+					for i, sc := range b.Succs {
+						if !l.Blocks[sc] {
+							taken := onTrue
+							if i == 1 {
+								taken = !onTrue
+							}
+							if taken == want {
+								ok = true
+							}
+						}
+					}
+				}
+			}
+		})
+		return ok
 	}
 	if fn := r.Anchor("C07.6", "(*filter.Condition).Evaluate"); fn != nil {
 		okA, okO := false, false
-		for _, ci := range callsIn(fn, false, func(cal *ssa.Function, _ ssa.CallInstruction) bool { return cal.Name() == "andTerms" || cal.Name() == "orTerms" }) {
-			for _, cd := range edgeConds(ci.Block()) {
-				v, pol := cd.V, cd.Pol
-				if u, isU := v.(*ssa.UnOp); isU && u.Op == token.NOT {
-					v, pol = u.X, !pol
+		okChainA, okChainO := false, false
+		nA, nO := 0, 0
+		for _, ci := range callsIn(fn, false, func(cal *ssa.Function, _ ssa.CallInstruction) bool { return c.inModule(cal) && chainFn(cal) }) {
+			cal := ci.Common().StaticCallee()
+			isAnd, isOr := false, false
+			for _, a := range ci.Common().Args {
+				src := sources(a)
+				if src["field:And"] {
+					isAnd = true
 				}
-				if _, isCmp := v.(*ssa.BinOp); isCmp || !sources(v)["call:Evaluate"] {
+				if src["field:Or"] {
+					isOr = true
+				}
+			}
+			if isAnd == isOr {
+				okA, okO = false, false
+				nA, nO = -100, -100
+				continue
+			}
+			for _, cd := range edgeConds(ci.Block()) {
+				nc := normCond(cd.V, cd.Pol)
+				if _, isCmp := nc.V.(*ssa.BinOp); isCmp || !sources(nc.V)["call:Evaluate"] {
 					continue
 				}
-				if ci.Common().StaticCallee().Name() == "andTerms" && pol {
+				if isAnd && nc.Pol {
 					okA = true
 				}
-				if ci.Common().StaticCallee().Name() == "orTerms" && !pol {
+				if isOr && !nc.Pol {
 					okO = true
 				}
 			}
-			// the remaining terms come from the matching field
-			want := "field:And"
-			if ci.Common().StaticCallee().Name() == "orTerms" {
-				want = "field:Or"
+			env := map[*ssa.Parameter]ssa.Value{}
+			for i, p := range cal.Params {
+				if i < len(ci.Common().Args) {
+					env[p] = ci.Common().Args[i]
+				}
 			}
-			if !sources(ci.Common().Args[1])[want] {
-				okA, okO = false, false
+			if isAnd {
+				nA++
+				okChainA = decidingExit(cal, env, false)
+			} else {
+				nO++
+				okChainO = decidingExit(cal, env, true)
 			}
 		}
+		r.Check("C07.6", "C07.6:AND-chain", fn.Pos(), nA == 1 && okChainA, "AND: the first false term ends the chain with that value",
+			"the AND chain does not stop with the deciding value of a term (each term must be able to decide the result; overwriting the accumulated result makes `a AND b AND c` equal to `a AND c`)")
+		r.Check("C07.6", "C07.6:OR-chain", fn.Pos(), nO == 1 && okChainO, "OR: the first true term ends the chain with that value",
+			"the OR chain does not stop with the deciding value of a term (each term must be able to decide the result; overwriting the accumulated result makes `a OR b OR c` equal to `a OR c`)")
 		r.Check("C07.6", "C07.6:Condition", fn.Pos(), okA && okO, "first term, then AND-chain only if true / OR-chain only if false", "Condition.Evaluate does not combine the first term with the AND chain (when true) / OR chain (when false)")
 	}
 }
